@@ -1,5 +1,6 @@
 /* Helper child for C20: echoes exactly what it was handed and does what ./ac.ctl scripts.
-   ./ac.ctl = "<exit code> <mode>"   mode bit 1: copy stdin to stdout, bit 2: copy stdin to stderr.
+   ./ac.ctl = "<exit code> <mode>"   mode bit 1: copy stdin to stdout, bit 2: copy stdin to stderr,
+                                     bit 4: stay alive after the header until a signal ends it (SIGALRM after 8 s at the latest).
    stdout:  "A <hex>" per argv string, "E <hex>" per environment string, "." then the copied bytes. */
 #include <stdio.h>
 #include <stdlib.h>
@@ -36,6 +37,7 @@ int main(int argc, char** argv)
   for(char** e = environ; *e; ++e) hexline('E', *e);
   printf(".\n");
   fflush(stdout);
+  if(mode & 4) { alarm(8); for(;;) pause(); }
   if(mode & 3) {
     static char buf[65536];
     for(;;) {
